@@ -95,6 +95,11 @@ func (verify *VerifyServerController) handlePairVerifyStart(in util.Container) (
 
 	verify.step = VerifyStepStartResponse
 
+	// Every exchange has its own Curve25519 key pair. With the key pair of an earlier exchange a
+	// controller which sends the same public key again gets the same shared secret – the same
+	// session keys with the frame counters starting at zero again.
+	verify.session = NewVerifySession()
+
 	var otherPublicKey [32]byte
 	copy(otherPublicKey[:], clientPublicKey)
 
